@@ -18,6 +18,9 @@ TRUSTED = []
 ASSUMPTIONS = ['CPython set semantics (membership, remove)']
 
 
+# areas of the pure core whose TRANSLATION (Generated/PyCore.lean) is run next to the real code in this check
+TRANSLATED_AREAS = ('play',)
+
 def cases(ctx):
     rng = ctx.rng
     n = 60 if ctx.quick else 500
